@@ -94,6 +94,8 @@ class VLoop(asyncio.SelectorEventLoop):
         self.virtual = virtual
         self._vtime = 1000.0
         self._exec_jobs = 0
+        self.exec_order = 'fifo'
+        self._exec_held = []
         self._idle_waiters = []
         self.deadlocked = False
         self.time_jumps = 0
@@ -111,6 +113,32 @@ class VLoop(asyncio.SelectorEventLoop):
     def run_in_executor(self, executor, func, *args):
         self._exec_jobs += 1
         fut = super().run_in_executor(executor, func, *args)
+
+        if self.exec_order == 'lifo':
+            # Executor jobs finish in whatever order the threads happen to
+            # run.  This mode makes the legal "last submitted finishes
+            # first" order deterministic: results are held back until every
+            # outstanding job is done and then handed out newest first.
+            outer = self.create_future()
+            self._exec_held.append((fut, outer))
+
+            def _release(_fut):
+                if not all(i.done() for i, _ in self._exec_held):
+                    return
+                held, self._exec_held = self._exec_held, []
+                for inner, out in reversed(held):
+                    self._exec_jobs -= 1
+                    if out.cancelled():
+                        continue
+                    if inner.cancelled():
+                        out.cancel()
+                    elif inner.exception() is not None:
+                        out.set_exception(inner.exception())
+                    else:
+                        out.set_result(inner.result())
+
+            fut.add_done_callback(_release)
+            return outer
 
         def _done(_fut):
             self._exec_jobs -= 1
